@@ -90,7 +90,25 @@ func c20GPSInstant(c *core.Ctx, t time.Time, tag string) time.Duration {
 	if !time.Time(back).Equal(t) {
 		c.Violate("C20|gps|roundtrip-utc|"+leapKey(t), "New(TimeSince(%s)) = %s", t.Format(time.RFC3339Nano), time.Time(back).Format(time.RFC3339Nano))
 	}
+	// an instant is the same instant in whatever time zone the time.Time value is expressed
+	// (time.Now() on a server east or west of Greenwich)
+	zi := int(uint64(t.UnixNano()) % uint64(len(c20Zones)))
+	for k := 0; k < 2; k++ {
+		z := c20Zones[(zi+k*5)%len(c20Zones)]
+		var gz time.Duration
+		c.Eval(1)
+		core.Guard(func() { gz = gps.Time(t.In(z)).TimeSinceGPSEpoch() })
+		if gz != want {
+			c.Violate("C20|gps|forward-in-zone|"+leapKey(t), "TimeSinceGPSEpoch(%s) = %v, but the same instant in UTC (%s) has %v", t.In(z).Format(time.RFC3339Nano), gz, t.Format(time.RFC3339Nano), want)
+		}
+	}
 	return got
+}
+
+var c20Zones = []*time.Location{
+	time.FixedZone("+14", 14*3600), time.FixedZone("-12", -12*3600), time.FixedZone("CET", 3600), time.FixedZone("EST", -5*3600),
+	time.FixedZone("+0530", 5*3600+1800), time.FixedZone("-0930", -(9*3600 + 1800)), time.FixedZone("+0001", 60), time.FixedZone("-0001", -60),
+	time.FixedZone("+1", 1), time.FixedZone("JST", 9*3600), time.FixedZone("+1245", 12*3600+2700),
 }
 
 func c20GPSDuration(c *core.Ctx, d time.Duration) {
